@@ -62,19 +62,32 @@ def _gene_events(args):
             for t in txs:
                 E.warm(t)
             E.warm(g)
-        pidx = [k for k, t in enumerate(g.transcripts) if t is g.primary_transcript]
-        # the shared-API spellings name the same member: get_primary_feature() is the primary transcript, and
-        # get_primary_cds() its CDS
-        if len(pidx) == 1 and not (g.get_primary_feature() is g.primary_transcript
-                                   and g.get_primary_cds() is g.primary_transcript.cds):
-            pidx = []
-        ev.append(["gene", ch_desc, ctor, g.start, g.end, g.is_coding, pidx[0] + 1 if len(pidx) == 1 else 0,
-                   E.outcome(lambda: E.loc(g.get_merged_transcript().chromosome_location)),
-                   E.outcome(lambda: E.loc(g.get_merged_cds().chromosome_location)),
-                   _sv(g.get_primary_transcript_sequence), [_sv(t.get_spliced_sequence) for t in txs],
-                   _sv(g.get_primary_cds_sequence), [_sv(t.get_cds_sequence) for t in txs],
-                   _sv(g.get_primary_protein), [_sv(t.get_protein_sequence) for t in txs],
-                   cwin[0], cwin[1]])
+        def emit(g, txs, ch_desc, ctor):
+            pidx = [k for k, t in enumerate(g.transcripts) if t is g.primary_transcript]
+            # the shared-API spellings name the same member: get_primary_feature() is the primary transcript, and
+            # get_primary_cds() its CDS
+            if len(pidx) == 1 and not (g.get_primary_feature() is g.primary_transcript
+                                       and g.get_primary_cds() is g.primary_transcript.cds):
+                pidx = []
+            ev.append(["gene", ch_desc, ctor, g.start, g.end, g.is_coding, pidx[0] + 1 if len(pidx) == 1 else 0,
+                       E.outcome(lambda: E.loc(g.get_merged_transcript().chromosome_location)),
+                       E.outcome(lambda: E.loc(g.get_merged_cds().chromosome_location)),
+                       _sv(g.get_primary_transcript_sequence), [_sv(t.get_spliced_sequence) for t in txs],
+                       _sv(g.get_primary_cds_sequence), [_sv(t.get_cds_sequence) for t in txs],
+                       _sv(g.get_primary_protein), [_sv(t.get_protein_sequence) for t in txs],
+                       cwin[0], cwin[1]])
+
+        emit(g, txs, ch_desc, ctor)
+        if len(txs) >= 2 and rnd.random() < 0.5:
+            # a gene that is the ANSWER of a query (isoforms named in any order, all or some of them): the same rules hold
+            # for it, over its own children in its own order
+            sel = rnd.sample(list(g.transcripts), rnd.randrange(2, len(txs) + 1))
+            hold2 = []
+            o2 = E.outcome(lambda: hold2.append(g.query_by_guids([t.guid for t in sel])) or 1)
+            if hold2 and len(hold2[0].transcripts) == len(sel):
+                sub = hold2[0]
+                order = [int(str(t.transcript_id)[1:]) for t in sub.transcripts]
+                emit(sub, list(sub.transcripts), [ch_desc[k] for k in order], o2)
         # feature collections from the same structures (non-coding view)
         feats, fdesc = [], []
         for n, (i, fl) in enumerate(zip(idxs, flags)):
